@@ -23,12 +23,14 @@ func (p *Parser) parseMatchAgainst(matchFunc *ast.FunctionCall) (ast.Expression,
 	}
 
 	// Consume optional mode keywords until we hit )
-	mode := ""
+	var modeWords strings.Builder
 	// the mode words end at the closing parenthesis; a semicolon means it is missing
 	for !p.isType(models.TokenTypeRParen) && !p.isType(models.TokenTypeEOF) && !p.isType(models.TokenTypeSemicolon) {
-		mode += " " + p.currentToken.Literal
+		modeWords.WriteString(" ")
+		modeWords.WriteString(p.currentToken.Literal)
 		p.advance()
 	}
+	mode := modeWords.String()
 
 	if !p.isType(models.TokenTypeRParen) {
 		return nil, p.expectedError(")")
